@@ -180,7 +180,9 @@ vars == <<prog, phase, code, frames, log, out, expected, disc>>
 Frame(fn) == [fn |-> fn, ip |-> 1, hs |-> <<>>, iter |-> <<>>]
 
 Init ==
-  /\ prog \in S1 \X (1..NCtx) \X (IF Family = "d1" THEN {0} ELSE 0..NCtx2)
+  \* d1: one layer of contexts, plus the second-layer context that declares a function literal inside a try body
+  \* (the compile-time try depth of a function literal starts afresh); d2: every second-layer context
+  /\ prog \in S1 \X (1..NCtx) \X (IF Family = "d1" THEN {0, 6} ELSE 0..NCtx2)
   /\ phase = "load"
   /\ code = <<>> /\ frames = <<>> /\ log = <<>> /\ out = <<>> /\ expected = <<>>
   /\ disc = TRUE
